@@ -263,7 +263,16 @@ def replay(params, model, wd):
         O.run_order_gfa(p, od, False, chromosome_order=",".join(order), with_sequence=False)
     except BaseException as e:  # noqa
         return {"reproduced": True, "key": "C06:run:exception:" + type(e).__name__, "what": repr(e)}
-    segs, links_, kinds_ = F.parse_gfa(open(os.path.join(od, "in-complete.gfa")).read().splitlines())
+    complete = open(os.path.join(od, "in-complete.gfa")).read().splitlines()
+    segs, links_, kinds_ = F.parse_gfa(complete)
+    lastkey = None
+    for l in complete:
+        if l.startswith("S"):
+            f = l.split("\t")
+            key = (int(F.tagval(f[3:], "BO")), int(F.tagval(f[3:], "NO")))
+            if lastkey is not None and key < lastkey:
+                return {"reproduced": True, "key": "C06:run:S-line-order", "what": "S lines of the complete GFA are not in (BO, NO) order: %r after %r" % (key, lastkey)}
+            lastkey = key
     prev = None
     for c in order:
         no = {n: (int(F.tagval(segs[n][1], "BO")), int(F.tagval(segs[n][1], "NO"))) for n in spec.chroms[c] if n in segs}
